@@ -40,6 +40,12 @@ func expandRef(tmpl, id string, ts int64) string {
 	return strings.ReplaceAll(s, "{{.timestamp}}", fmt.Sprint(ts))
 }
 
+// unparsable: the template uses action delimiters beyond the two documented fields.
+func unparsable(tmpl string) bool {
+	rest := strings.ReplaceAll(strings.ReplaceAll(tmpl, "{{.id}}", ""), "{{.timestamp}}", "")
+	return strings.Contains(rest, "{{")
+}
+
 func nextRef(t int64, cron string) int64 {
 	n, err := util.Next(t, cron)
 	if err != nil {
@@ -241,6 +247,9 @@ func (m *C10Monitor) OnResponse(w *world.World, r *world.Req) {
 func (m *C10Monitor) OnEnd(w *world.World) {
 	d := w.Dump()
 	for id, s := range d.Schedules {
+		if unparsable(s.PromiseId) {
+			continue // a template that does not parse can never fire; the cycle skips it
+		}
 		if s.NextRunTime <= w.Clock {
 			w.Violate("C10:not-caught-up", "schedule %q still has next run %d <= clock %d after the cycles of the epilogue", id, s.NextRunTime, w.Clock)
 			continue
@@ -365,6 +374,17 @@ func C10Scenarios(tier string) []*Scenario {
 			Faults: tierInt(tier, 0, 1), Epilogue: c10Epilogue, Monitors: mon, Bound: -1,
 		})
 	}
+	// a stored schedule that the cycle has to skip (its template does not parse) next to a
+	// healthy one whose promise id is already taken
+	out = append(out, &Scenario{
+		Name: "C10/skipped-schedule-first", Cfg: world.DefaultConfig(), Clock0: 0,
+		Setup: func(w *world.World) {
+			w.Do(9, 0, CreateS("a-bad", everySecond, "{{", 500, "", nil).F())
+			w.Do(9, 1, CreateS("s", everySecond, "{{.id}}.{{.timestamp}}", 500, "k", nil).F())
+		},
+		Clients: [][]ReqF{{acts[3]}, {acts[5]}}, Sweeps: map[string]int{"SchedulePromises": 2}, ClockMenu: []int64{1000, 2000},
+		Faults: tierInt(tier, 0, 1), Epilogue: c10Epilogue, Monitors: mon, Bound: -1,
+	})
 	// a schedule whose promises route to a receiver (the occurrence's promise is born with its task)
 	out = append(out, &Scenario{
 		Name: "C10/routed-promises", Cfg: world.DefaultConfig(), Clock0: 0, Setup: base(routedTags).f,
